@@ -84,6 +84,7 @@ def run(chk):
     )
     chk.rule("R1", "expression arguments of verb constructors come from preprocess_arg(., input table) / the join ingress / a cache")
     chk.rule("R2", "ingress functions refuse out-of-scope Col objects and resolve C.name through the current table")
+    chk.rule("R2v", "preprocess_arg interpreted on a stub table with a hidden column: C.name -> this table's visible column (also nested), columns in scope keep their identity, foreign columns and unknown names -> ColumnNotFoundError, the caller's expression is untouched")
     chk.rule("R3", "data is found by _uuid: Col branch of both compile_col_expr, Table.__getitem__/__getattr__")
     chk.rule("R4", "Col.name never feeds a name-keyed lookup outside the reviewed by-name sites")
     chk.rule("R5", "scope: summarize / union shrink `cols`, alias re-identifies every column, collect(keep_col_refs=False) starts afresh")
@@ -115,16 +116,36 @@ def run(chk):
                        "C.name would stay unresolved / a foreign or dropped column would be accepted / literals stay unwrapped")  # fmt: skip
     chk.floor("R1", "expression arguments of verb constructors", n1, 7)
 
-    # ---- R2
+    # ---- R2v: the ingress of every verb but join, interpreted on a stub table with a hidden column (pipesim.ingress_scenarios);
+    # the shape of _preprocess_expr (R2 below) is the fallback
+    from .. import pipesim as _ps9
+    from ..interp import PyRaise as _PR9i, SymbolicBranch as _SB9i
+    from .c17 import m_types_env as _mte9
+
     pa = vb.func("preprocess_arg")
-    inner = vb.func("preprocess_arg._preprocess_expr")
+    ingress_decided = False
+    try:
+        res_i = _ps9.ingress_scenarios(_ps9.RealWorld(repo, _mte9(m)))
+        for _tag, desc, ok_, detail in res_i:
+            chk.ob("R2v", vb, pa, f"preprocess_arg interpreted: {desc}", ok_, detail)
+        chk.floor("R2v", "ingress scenarios", len(res_i), 10)
+        ingress_decided = True
+    except (AnalysisError, _SB9i, KeyError) as e:
+        chk.undecided.append(f"R2v: preprocess_arg could not be interpreted ({str(e)[:140]})")
+    except _PR9i as p_:
+        ingress_decided = True
+        chk.ob("R2v", vb, pa, "preprocess_arg on the stub table", False, f"setting up the scenario raises {p_.name}: {p_.msg}")
+    _ob2 = chk.ob if not ingress_decided else (lambda *a, **k: None)
+
+    # ---- R2
+    inner = next((f_ for q_, f_ in vb.defs.items() if q_.startswith("preprocess_arg.") and isinstance(f_, ast.FunctionDef)), None) or pa
     isrc = norm(inner)
-    chk.ob("R2", vb, inner, "preprocess: isinstance(expr, ColName) -> table[expr.name] (the verb's input table)",
+    _ob2("R2", vb, inner, "preprocess: isinstance(expr, ColName) -> table[expr.name] (the verb's input table)",
            any(isinstance(n, ast.If) and "isinstance(expr, ColName)" in norm(n.test) and any(norm(s) == "return table[expr.name]" for s in n.body) for n in ast.walk(inner)),
            "C.name is no longer resolved against the table the verb is applied to")  # fmt: skip
-    chk.ob("R2", vb, inner, "preprocess recurses into every child (map_children with itself)", "new.map_children(" in isrc and "_preprocess_expr" in isrc.split("new.map_children(")[1][:120],
+    _ob2("R2", vb, inner, "preprocess recurses into every child (map_children with itself)", "new.map_children(" in isrc and "_preprocess_expr" in isrc.split("new.map_children(")[1][:120],
            "nested references are not resolved / checked")  # fmt: skip
-    chk.ob("R2", vb, pa, "preprocess_arg wraps python literals first", bool(effective_body(pa)) and norm(effective_body(pa)[0]) == "arg = wrap_literals(arg)",
+    _ob2("R2", vb, pa, "preprocess_arg wraps python literals first", bool(effective_body(pa)) and norm(effective_body(pa)[0]) == "arg = wrap_literals(arg)",
            "verb arguments are no longer wrapped into expressions before resolution")  # fmt: skip
     jf = vb.func("join")
     pre = vb.func("join._preprocess_on")
@@ -160,16 +181,38 @@ def run(chk):
     chk.ob("R2", tb, gi, "Table.__getitem__(Col): same identity, current name", good_gi,
            "derived[t.x] no longer reports the current name under the same identity")  # fmt: skip
 
-    # ---- R3
+    # ---- R3: both expression compilers interpreted on a column whose *stored* name differs from its current one: the data is
+    # found through the identity (the name maps of the compilers), never through the stored name; shape of the Col branch as fallback
     pol = repo.mod("backend.polars")
     pc = pol.func("compile_col_expr")
-    colb = next((n for n in ast.walk(pc) if isinstance(n, ast.If) and norm(n.test) == "isinstance(expr, Col)"), None)
-    chk.ob("R3", pol, colb or pc, "polars Col branch: pl.col(name_in_df[expr._uuid])", colb is not None and "pl.col(name_in_df[expr._uuid])" in " ".join(norm(s) for s in colb.body),
-           "the Polars compiler does not find a column's data through its UUID")  # fmt: skip
     sql = repo.mod("backend.sql")
     sc = sql.func("SqlImpl.compile_col_expr")
+    from .. import polsim as _pl9
+    from ..interp import Native as _N9, Obj as _O9, Term as _T9, Var as _V9
+
+    res_decided = False
+    try:
+        pw = _pl9.PolWorld(repo, _mte9(m))
+        c_old = pw.p.new("tree.col_expr", "Col", name="stored_name", _ast=None, _uuid="U1", _dtype=pw.I, _ftype=pw.F.ELEMENT_WISE)
+        t = pw.compile(c_old, {"U1": "current_name", "U2": "stored_name"})
+        okp = isinstance(t, _T9) and t.fn.split(".")[-1] == "col" and t.args[:1] == ("current_name",)
+        chk.ob("R3", pol, pc, "polars compile_col_expr(Col) interpreted: the physical column is found through the identity", okp,
+               f"the Polars compiler reads a column whose stored name differs from its current physical name as {t!r}: it must be pl.col(<name filed under the column's identity>)")  # fmt: skip
+        sw = _ps9.RealWorld(repo, _mte9(m))
+        cls_ = _O9(sw.env["SqlImpl"])
+        lab = _V9("label:U1")
+        r = sw.p.call(sw.env["SqlImpl"].methods["compile_col_expr"].bind(cls_), [sw.p.new("tree.col_expr", "Col", name="stored_name", _ast=None, _uuid="U1", _dtype=sw.I, _ftype=sw.F.ELEMENT_WISE), {"U1": lab, "U2": _V9("label:U2")}])
+        chk.ob("R3", sql, sc, "sql compile_col_expr(Col) interpreted: the expression is found through the identity", r is lab or r == lab,
+               f"the SQL compiler reads a column as {r!r}: it must be the expression filed under the column's identity")  # fmt: skip
+        res_decided = True
+    except (AnalysisError, _SB9i, _PR9i, KeyError) as e:
+        chk.undecided.append(f"R3: the Col branch of the expression compilers could not be interpreted ({str(e)[:140]})")
+    _ob3 = chk.ob if not res_decided else (lambda *a, **k: None)
+    colb = next((n for n in ast.walk(pc) if isinstance(n, ast.If) and norm(n.test) == "isinstance(expr, Col)"), None)
+    _ob3("R3", pol, colb or pc, "polars Col branch: pl.col(name_in_df[expr._uuid])", colb is not None and "pl.col(name_in_df[expr._uuid])" in " ".join(norm(s) for s in colb.body),
+           "the Polars compiler does not find a column's data through its UUID")  # fmt: skip
     colb = next((n for n in ast.walk(sc) if isinstance(n, ast.If) and norm(n.test) == "isinstance(expr, Col)"), None)
-    chk.ob("R3", sql, colb or sc, "sql Col branch: sqa_expr[expr._uuid]", colb is not None and any(norm(s) == "return sqa_expr[expr._uuid]" for s in colb.body),
+    _ob3("R3", sql, colb or sc, "sql Col branch: sqa_expr[expr._uuid]", colb is not None and any(norm(s) == "return sqa_expr[expr._uuid]" for s in colb.body),
            "the SQL compiler does not find a column's expression through its UUID")  # fmt: skip
     # the physical-name maps are keyed by uuid at the leaves and for new columns
     pa_ = sib.cfgs["polars"].func
@@ -256,7 +299,7 @@ def run(chk):
                "mutate drops columns from scope: a reference to an overwritten column would stop working")  # fmt: skip
     chk.floor("R5", "scope obligations", 10 + len([u for u in chk.undecided if u.startswith("R5")]), 10)
     # scope test of the ingress is on `cols` (all columns in scope), not on the visible ones
-    chk.ob("R5", vb, inner, "ingress checks `expr._uuid not in table._cache.cols`", "expr._uuid not in table._cache.cols" in isrc,
+    _ob2("R5", vb, inner, "ingress checks `expr._uuid not in table._cache.cols`", "expr._uuid not in table._cache.cols" in isrc,
            "the ingress tests visibility instead of scope (hidden columns would be rejected) or nothing at all")  # fmt: skip
 
 
